@@ -693,7 +693,7 @@ def main(argv):
     if a.replay:
         return replay(a.replay)
     rep = harness.Report(PROP, a.tier, a.seed, "exploration")
-    nproc, nex = (16, 1000) if a.tier == "quick" else (192, 8000)
+    nproc, nex = (16, 4000) if a.tier == "quick" else (192, 8000)
     jobs = [{"hseed": core.h64(a.seed, "c07", i) % (2**31), "examples": nex} for i in range(nproc)]
     results = harness.pmap(hunt, jobs, chunk=1, hang_s=1500)
     stats, nontriv, runs, samples = {}, set(), 0, []
